@@ -75,8 +75,11 @@ def static_bank():
     try:
         root, files = build_static_tree(base)
         secrets = ["SECRET-OUTSIDE", "SECRET-SIBLING", "SECRET-OUTSIDE-INDEX", "private-key.txt"]
-        for listing in (False, True):
-            h = StaticFileHandler(root, enable_directory_listing=listing)
+        # the document root as an operator may configure it: its own path, a symlink to it, a spelling with '..', a trailing slash
+        os.symlink(root.name, base / "rootlink")
+        configured = [root, base / "rootlink", root / "sub" / "..", Path(str(root) + "/"), base / "rootlink" / "deep" / ".."]
+        for cfg_root, listing in [(c, l) for c in configured for l in (False, True)]:
+            h = StaticFileHandler(cfg_root, enable_directory_listing=listing)
             # 1. nothing from outside the root, whatever the spelling
             own = ["/" + rel for rel in files] + ["/" + quote(rel) for rel in files] + ["/" + "".join(f"%{b:02X}" for b in rel.encode()) .replace("%2F", "/") for rel in files]
             abs_spelled = ["/%2F" + str(root).lstrip("/") + "/a.gmi", "/" + str(root).lstrip("/") + "/a.gmi", "/%2F%2F" + str(root).lstrip("/") + "/sub2/b.gmi"]
@@ -92,7 +95,7 @@ def static_bank():
                     status, meta, body = 40, f"exception {type(e).__name__}", None
                 text = (body if isinstance(body, str) else (body or b"").decode("utf-8", "replace")) if body is not None else ""
                 leaked = [s for s in secrets if s in text or s in meta]
-                inp = dict(path=path, directory_listing=listing)
+                inp = dict(path=path, directory_listing=listing, document_root_configured_as=str(cfg_root), document_root_is=str(root))
                 if leaked:
                     return dict(confirmed=True, input=inp, observed=dict(status=status, meta=meta, body=text[:80], violated=[f"content of a file outside the document root was revealed ({leaked[0]})"]),
                                 clause="[C02] a success response carries a file or listing whose resolved location is inside the root; other paths reveal nothing"), tried
@@ -126,7 +129,7 @@ def static_bank():
                     tried += 1
                     r = h.handle(req)
                     if r.status != 20 or (r.body or "").strip() != marker:
-                        return dict(confirmed=True, input=dict(file=rel, path=path, spelling=how, directory_listing=listing),
+                        return dict(confirmed=True, input=dict(file=rel, path=path, spelling=how, directory_listing=listing, document_root_configured_as=str(cfg_root), document_root_is=str(root)),
                                     observed=dict(status=r.status, meta=r.meta, violated=[f"the regular file {rel!r} inside the root was not served when requested by its own {how} path"]),
                                     clause="[C02] every regular file inside the root is served when requested by its own path, literal or percent-encoded"), tried
         return None, tried
